@@ -186,7 +186,7 @@ pub fn def() -> PropDef {
         thorough_cases: 1500,
         worker,
         solo,
-        hang_cpu_s: 120.0,
+        hang_cpu_s: 300.0,
         extra: None,
         confirm_known: false,
     }
